@@ -37,8 +37,9 @@ type VectorIid struct {
 func NewVectorIid(distribution VectorPdf, n int) (*VectorIid, error) {
   m := distribution.Dim()
   t := NewScalar(distribution.ScalarType(), 0.0)
-  if n < 0 || n % m != 0 {
-    return nil, fmt.Errorf("error while creating a vector iid distribution: dimension `%d' is not a multiple of dimension `%d'", n, m)
+  // n is the number of rows, each row is a vector of dimension m
+  if n < 0 || m < 0 {
+    return nil, fmt.Errorf("error while creating a vector iid distribution: invalid dimensions `%dx%d'", n, m)
   }
   return &VectorIid{distribution, n, t}, nil
 }
